@@ -361,6 +361,8 @@ def policy_script(q, i, seed, mode):
 
 def gen_policy_scripts(work, mode, tier, seed, quick_n=1500):
     r, qs = policy_states(work, mode)
+    # (TLC with several workers lists the states in an order of its own: the sample below must not depend on it)
+    qs = sorted(qs, key=lambda q: json.dumps(q, sort_keys=True))
     scripts = []
     for i, q in enumerate(qs):
         s = policy_script(q, i, seed, mode)
@@ -381,7 +383,8 @@ def gen_policy_scripts(work, mode, tier, seed, quick_n=1500):
                 ph_user = s["tun"]["user"] if (any("PH" in e for e in s["cfg"]["hosts"]) and st["name"] in (["H127", "7"], ["H127", "8"])) else None
                 # (the address switch is a dimension of the host requests as well: what it turns off is the address
                 # comparison, never the binding of the tunnel to its token's host)
-                buckets[(s["cfg"]["sel"], json.dumps(s["cfg"]["hosts"]), json.dumps(st["name"]), s["cfg"]["tokenAuth"], str(ph_user), s["cfg"]["verifyIp"] or not s["cfg"]["tokenAuth"])].append(s)
+                buckets[(s["cfg"]["sel"], json.dumps(s["cfg"]["hosts"]), json.dumps(st["name"]), s["cfg"]["tokenAuth"], str(ph_user), s["cfg"]["verifyIp"] or not s["cfg"]["tokenAuth"],
+                         st["port"] if ph_user is not None else None)].append(s)
         keep = []
         per = max(1, quick_n // max(1, len(buckets)))
         for k in sorted(buckets):
